@@ -36,6 +36,11 @@ const (
 	sigModified = "c10b-subset-modifies-its-arguments"
 	sigWrite    = "c10b-subset-not-writable"
 	sigReread   = "c10b-subset-changes-on-reread"
+	// the subset keeps a reference to memory the caller owns (the glyph list)
+	sigRetainsCaller = "c10-subset-retains-caller-memory"
+	// the subset keeps a reference to a slice or function field of the original
+	// (beyond the *Glyph / *PrivateDict values it is documented to share)
+	sigRetainsOriginal = "c10-subset-retains-original-slices"
 	// fixed finding (fixes/C10-glyph-list-aliased.diff)
 	sigListAliased = "c10-glyph-list-aliased"
 	// findings of the main development that this part's fonts can hit as well
@@ -686,9 +691,29 @@ func oracle(c *Case, res *result) (fail, sig string) {
 	if res.firstResult != "" {
 		return res.firstResult, sigModified
 	}
+	if res.retained != "" {
+		return res.retained, sigRetainsCaller
+	}
 	if !inDomain(c) {
 		return "", ""
 	}
+	// last of all (it destroys the original): the subset does not depend on
+	// what the caller does with the original's slices and function fields
+	// afterwards - asked only when every other clause holds
+	defer func() {
+		if fail == "" && res.changeOriginal != nil && !res.panicked {
+			func() {
+				defer func() {
+					if e := recover(); e != nil {
+						fail, sig = fmt.Sprint("the subset cannot be inspected after the original was changed: ", e), sigRetainsOriginal
+					}
+				}()
+				if msg := res.changeOriginal(); msg != "" {
+					fail, sig = msg, sigRetainsOriginal
+				}
+			}()
+		}
+	}()
 	if res.hung {
 		return "Subset does not return", sigPanic
 	}
